@@ -188,6 +188,11 @@ func c07Worker(w *core.WorkerCtx) {
 		// validated while the truncation runs
 		c01TruncationRace(w, []string{"C07"})
 	}
+	if w.Batch == 2 || (w.Thorough() && w.Batch%3 == 1) {
+		// "leaves later transfers validated against the same funds as before", for the transfer that sat on a tentative
+		// tip whose parents the truncation cut away: it is validated, as a root of the graph, against the checkpoint
+		c02RootTip(w, []string{"C07"})
+	}
 	if w.Batch == 3 || (w.Thorough() && w.Batch%3 == 0) {
 		// three truncations in a row, the third one over a storage that already holds well over two thousand entries
 		// (vertices and funds of the first two): "also across repeated truncations"
@@ -285,7 +290,7 @@ func init() {
 	core.Register(&core.Check{
 		Spec: core.Spec{
 			Prop:        "C07",
-			Rule:        "Ledgers of 1001-1400 vertices (single-node chains; wide DAGs from 2-3 nodes with lagging exchange; several tips through forged side branches; valid, all-funds, boundary and overdrawing transfers) are truncated through the hook that calls the real truncate, once or repeatedly (>= 1010 vertices in between), optionally racing with concurrent proposals. Around every truncation: per-tip reference balances and, single-tipped, the node's own CalculateBalance answers are identical before/after; every vertex and transaction ever seen confirmed is read back by hash with identical fields and still verifies; re-submission of checkpointed vertices/transactions (same vertex, same transaction, re-wrapped by another sealer) is refused; checkpoint funds per address equal the big-integer net flow of exactly the stored vertices; stored set only grows, nothing lost, nothing both live and stored; fixed scenarios: the side-tip and the gross-flow witnesses of the known findings, a truncation that moves about 13 MB of contracts in one go; one scenario cancels the first truncation in the middle of its persisting walk (a context that fires once m more vertices are in the storage) and demands that the interrupted attempt and every later attempt (which the code refuses) stay transparent in the same sense; afterwards hostile traffic runs under the C01/C02/C03/C09 oracles. Non-trivial = every truncation and every lookup/re-offer after it; distinct by (nodes, tips, live bucket, prior checkpoint, moved bucket, race). Around every judged truncation without racing writers four clients keep asking for balances: every answer must be the one given before the truncation. One batch runs the truncation-race scenario (a tentative tip that only the doubly counted checkpoint would cover, truncation racing with 24 proposals). Overspend probes: at the end of every long scenario (single tip) each wallet proposes one smallest unit more than it owns over all vertices of the ledger, each counted once, followed by proposals that make the node judge that tip; every second wallet then spends exactly what it owns. One batch runs three truncations in a row (1150 vertices in between), the third over a storage of well over two thousand entries.",
+			Rule:        "Ledgers of 1001-1400 vertices (single-node chains; wide DAGs from 2-3 nodes with lagging exchange; several tips through forged side branches; valid, all-funds, boundary and overdrawing transfers) are truncated through the hook that calls the real truncate, once or repeatedly (>= 1010 vertices in between), optionally racing with concurrent proposals. Around every truncation: per-tip reference balances and, single-tipped, the node's own CalculateBalance answers are identical before/after; every vertex and transaction ever seen confirmed is read back by hash with identical fields and still verifies; re-submission of checkpointed vertices/transactions (same vertex, same transaction, re-wrapped by another sealer) is refused; checkpoint funds per address equal the big-integer net flow of exactly the stored vertices; stored set only grows, nothing lost, nothing both live and stored; fixed scenarios: the side-tip and the gross-flow witnesses of the known findings, a truncation that moves about 13 MB of contracts in one go; one scenario cancels the first truncation in the middle of its persisting walk (a context that fires once m more vertices are in the storage) and demands that the interrupted attempt and every later attempt (which the code refuses) stay transparent in the same sense; afterwards hostile traffic runs under the C01/C02/C03/C09 oracles. Non-trivial = every truncation and every lookup/re-offer after it; distinct by (nodes, tips, live bucket, prior checkpoint, moved bucket, race). Around every judged truncation without racing writers four clients keep asking for balances: every answer must be the one given before the truncation. One batch runs the truncation-race scenario (a tentative tip that only the doubly counted checkpoint would cover, truncation racing with 24 proposals). Overspend probes: at the end of every long scenario (single tip) each wallet proposes one smallest unit more than it owns over all vertices of the ledger, each counted once, followed by proposals that make the node judge that tip; every second wallet then spends exactly what it owns. One batch runs three truncations in a row (1150 vertices in between), the third over a storage of well over two thousand entries. Orphaned tip: a transfer of 50 by a wallet that holds 10 sits on a tentative tip whose parent the truncation cuts away; the node's next own vertices must not confirm it (the wallet holds 10 before and after the truncation).",
 			Assumptions: []string{ledgerAssume, "the cut position is what the real code picks (1000th visited ancestor of a map-order tip); the workload varies ledger length and shape around it"},
 			MinEvals:    500, MinNontriv: 3,
 			MinCounters: map[string]int{"c07_truncations": 2, "c07_vertices_checkpointed": 1},
